@@ -14,6 +14,9 @@ NAMES = {
     'orchid': (218, 112, 214), 'plum': (221, 160, 221), 'beige': (245, 245, 220), 'ivory': (255, 255, 240),
     'lavender': (230, 230, 250), 'turquoise': (64, 224, 208), 'tan': (210, 180, 140), 'skyblue': (135, 206, 235),
     'steelblue': (70, 130, 180), 'firebrick': (178, 34, 34),
+    # the first names of the CSS table (an encoder that needs a spare colour is likely to pick from the start of its table)
+    'aliceblue': (240, 248, 255), 'antiquewhite': (250, 235, 215), 'aquamarine': (127, 255, 212), 'azure': (240, 255, 255),
+    'yellowgreen': (154, 205, 50), 'whitesmoke': (245, 245, 245),
 }
 
 
